@@ -571,6 +571,8 @@ static void l1sched_a5_burst_enc(struct l1sched_lchan_state *lchan, struct l1sch
 static void l1sched_a5_burst_dec(struct l1sched_lchan_state *lchan, struct l1sched_burst_ind *bi) { }
 /* callees of l1sched_configure_ts (their effect on mf_layout as in sched_trx.c) */
 static int l1sched_cfg_pchan_comb_ind(struct l1sched_state *sched, uint8_t tn, enum gsm_phys_chan_config pchan) { return 0; }
+/* libosmocore's panic handler (OSMO_ASSERT): a failed assertion of the code under test aborts the harness (reported as a crash) */
+void osmo_panic(const char *fmt, ...) { printf("osmo_panic\n"); fflush(stdout); abort(); }
 int l1sched_reset_ts(struct l1sched_state *sched, int tn)
 {
 	if (sched->ts[tn] == NULL) return -EINVAL;
